@@ -116,12 +116,24 @@ fn main() {
     let mut behaviour_runs = 0u64;
     let mut gen_fail = 0u64;
     let mut idx = 0usize;
-    for p in 0..n_prog {
+    // fixed shapes first (what the random generator reaches too rarely), then the generated programs
+    let mut work: Vec<(String, Vec<String>)> = vec![];
+    {
+        // a blocklisted record reached directly, through a typedef and through a typedef of a typedef, in records
+        // whose Debug / PartialEq must be written by hand
+        let text = "struct B0 { int x; };\ntypedef B0 B0_t;\ntypedef B0_t B0_tt;\nstruct D1 { B0 b; int k; char big[40]; };\nstruct D2 { B0_t b; int k; char big[40]; };\nstruct D3 { char c; B0_tt b; char big[40]; };\nstruct D4 { D2 inner; int z; };\n".to_string();
+        for fl in [vec!["--impl-debug", "--blocklist-type", "B0"], vec!["--impl-debug", "--impl-partialeq", "--with-derive-partialeq", "--with-derive-default", "--blocklist-type", "B0"],
+                   vec!["--impl-debug", "--with-derive-hash", "--blocklist-type", "B0", "--no-derive-copy"]] {
+            let mut f: Vec<String> = fl.iter().map(|x| x.to_string()).collect();
+            f.push("--no-layout-tests".into());
+            work.push((text.clone(), f));
+        }
+    }
+    for _p in 0..n_prog {
         let n_units = 3 + rng.below(9) as usize;
         let prog = Program::generate(&mut rng, n_units);
         let text = prog.emit(&prog.natural_order());
         for _ in 0..n_opts {
-            idx += 1;
             let mut flags = random_flags(&mut rng, &prog);
             // a derive-heavy bias: C08 wants all 2^9 combinations exercised over time
             flags.retain(|f| f != "--no-layout-tests");
@@ -133,6 +145,12 @@ fn main() {
                 if has(&flags, "--with-derive-ord") { for x in ["--with-derive-eq", "--with-derive-partialord"] { if !has(&flags, x) { flags.push(x.into()); } } }
                 if has(&flags, "--with-derive-partialord") || has(&flags, "--with-derive-eq") { if !has(&flags, "--with-derive-partialeq") { flags.push("--with-derive-partialeq".into()); } }
             }
+            work.push((text.clone(), flags));
+        }
+    }
+    for (text, flags) in work {
+        {
+            idx += 1;
             let h = scratch.path(&format!("c{idx}.hpp"));
             std::fs::write(&h, &text).unwrap();
             let mut fl = vec![h.to_string_lossy().into_owned(), "--formatter".into(), "none".into()];
